@@ -24,10 +24,21 @@ BRANCHES = {
 }
 
 
-def configs():
+def configs(date=None):
     for ost in (False, True):
         for kinder in (True, False):
             yield {"wohnort_ost": ost, "ges_pflegev_hat_kinder": kinder}
+    # from 2023-07-01 the long-term-care rate depends on the number of children under 25; the count is a column users
+    # supply (gettsim's synthetic data does), so it is a configuration dimension of the chain
+    if date is not None and "ges_pflegev_anz_kinder_bis_24" in popgen.graph(date)[0].nodes:
+        for ost in (False, True):
+            for n in (2, 5):
+                yield {"wohnort_ost": ost, "ges_pflegev_hat_kinder": True, "ges_pflegev_anz_kinder_bis_24": n}
+
+
+def _label(date, cfg):
+    extra = "".join(f" {k}={v}" for k, v in cfg.items() if k not in ("wohnort_ost", "ges_pflegev_hat_kinder"))
+    return f"{date} ost={cfg['wohnort_ost']} kinder={cfg['ges_pflegev_hat_kinder']}{extra}"
 
 
 def statutory_points(info, date):
@@ -47,7 +58,7 @@ def midijob_triple(date, branch):
 
 def run_config(r, date, cfg, rnd):
     df = chains.single_person(date, **cfg)
-    label = f"{date} ost={cfg['wohnort_ost']} kinder={cfg['ges_pflegev_hat_kinder']}"
+    label = _label(date, cfg)
     for branch, (target, ceiling_node) in BRANCHES.items():
         triple = midijob_triple(date, branch)
         targets = [target] + (triple or [])
@@ -116,7 +127,7 @@ def sweep(r, date, cfg, dense):
         if t3:
             extra += t3
     res = popgen.simulate(big, date, targets=targets + extra + ["in_gleitzone"])
-    label = f"{date} ost={cfg['wohnort_ost']} kinder={cfg['ges_pflegev_hat_kinder']}"
+    label = _label(date, cfg)
     rep = {"date": date, "config": cfg}
     w = np.asarray(ws)
     for branch, (t, cnode) in BRANCHES.items():
@@ -187,11 +198,11 @@ def run(tier: str) -> int:
         keep = {dates[0], dates[-1], "2022-10-01", "2019-07-01"}
         dates = [d for d in dates if d in keep] or dates[:3]
     for date in dates:
-        for cfg in configs():
+        for cfg in configs(date):
             run_config(r, date, cfg, rnd)
     sdates = dates if not quick else dates[:2] + dates[-1:]
     for date in sdates:
-        for cfg in (list(configs()) if not quick else list(configs())[::3]):
+        for cfg in (list(configs(date)) if not quick else list(configs(date))[::3]):
             ok, _ = r.attempt(f"wage sweep at {date}", sweep, r, date, cfg, not quick)
     r.sample({"chain": "bruttolohn_m -> … -> ges_rentenv_beitr_arbeitnehmer_m (7 rules)", "date": "2023-07-01",
               "certified": "∀ w ≥ 0: 0 ≤ f w; x ≤ y → f x ≤ f y; w ≤ 520 → f w = 0; w ≥ 7300 → f w = 678.9"})
